@@ -168,6 +168,16 @@ var externalConsts = map[string]int64{
 	"chacha20.NonceSize": 12,
 	"sha256.Size":        32,
 	"sha512.Size384":     48,
+	"sha512.Size":        64,
+	"sha256.BlockSize":   64,
+	"sha512.BlockSize":   128,
+	// package math: integer limits (a limit "borrowed" from math instead of a literal must still
+	// reach the model as a number)
+	"math.MaxInt8": 1<<7 - 1, "math.MinInt8": -1 << 7, "math.MaxUint8": 1<<8 - 1,
+	"math.MaxInt16": 1<<15 - 1, "math.MinInt16": -1 << 15, "math.MaxUint16": 1<<16 - 1,
+	"math.MaxInt32": 1<<31 - 1, "math.MinInt32": -1 << 31, "math.MaxUint32": 1<<32 - 1,
+	"math.MaxInt64": 1<<63 - 1, "math.MinInt64": -1 << 63, "math.MaxInt": 1<<63 - 1, "math.MinInt": -1 << 63,
+	"bits.UintSize": 64,
 }
 
 func coqIdent(s string) string {
